@@ -37,7 +37,22 @@ class _SimDatetime(_dt.datetime):
         w = _CUR
         if w is None:
             return _dt.datetime.now(tz)
+        if tz is None:
+            # naive local time: the zone of the simulated host (world.tz_offset seconds east of UTC)
+            return _dt.datetime.fromtimestamp(w.clock.now, _dt.timezone.utc).replace(tzinfo=None) + \
+                _dt.timedelta(seconds=getattr(w, "tz_offset", 0))
         return _dt.datetime.fromtimestamp(w.clock.now, tz)
+
+    @classmethod
+    def utcnow(cls):
+        w = _CUR
+        if w is None:
+            return _dt.datetime.utcnow()
+        return _dt.datetime.fromtimestamp(w.clock.now, _dt.timezone.utc).replace(tzinfo=None)
+
+    @classmethod
+    def today(cls):
+        return cls.now()
 
 
 def _urandom(n):
